@@ -26,3 +26,87 @@ Example C17_alignment_nonvacuous :
   /\ c_pos (model_coll 3 ms true app) = [(3, 0%N); (3, 0%N); (3, 63%N)]
   /\ c_docs (model_coll 3 ms true app) = 3%N.
 Proof. vm_compute. auto. Qed.
+
+From C17 Require Import ProofsHist.
+
+(* For EVERY history of bulks into one fraction (each bulk: metas with the same ID point at the
+   same document, i.e. pairwise distinct document IDs, nested metas with their parent) with
+   arbitrary re-sent subsets — whole bulks, partial overlaps, the same document many times,
+   mixed with new documents, at any position — the index of the fraction is exactly the first
+   deliveries (first_deliveries h = concat (dedup_first h), C17_first_deliveries_are_dedup):
+   the LID table lists them once each in arrival order, every token's postings are exactly the
+   LIDs of the first deliveries carrying it, DocsTotal counts them once, From/To span them,
+   and the position map holds exactly their IDs. A repeat contributes nothing. *)
+Theorem C17_index_is_first_deliveries :
+  forall h, Forall (fun b => bulk_ok (map fst b)) h ->
+    index_is (run_active h) (first_deliveries (map (map fst) h)).
+Proof. exact run_index. Qed.
+Print Assumptions C17_index_is_first_deliveries.
+
+Theorem C17_first_deliveries_are_dedup :
+  forall h, first_deliveries h = concat (dedup_first h)
+            /\ first_deliveries (dedup_first h) = first_deliveries h.
+Proof. intros h. split; [apply first_deliveries_concat|apply first_deliveries_dedup]. Qed.
+Print Assumptions C17_first_deliveries_are_dedup.
+
+(* observe (run h) = observe (run (dedup_first h)): LID table, postings of every token,
+   DocsTotal, From, To. (The second hypothesis — the deduplicated bulks are still well formed —
+   holds whenever documents are removed whole; it is kept as a hypothesis, see the report.) *)
+Theorem C17_idempotent :
+  forall h, Forall (fun b => bulk_ok (map fst b)) h -> Forall (fun b => bulk_ok (map fst b)) (dedupb h) ->
+    let a := run_active h in let a' := run_active (dedupb h) in
+    a_ids a = a_ids a' /\ (forall t, tok_lids a t = tok_lids a' t) /\
+    a_total a = a_total a' /\ a_from a = a_from a' /\ a_to a = a_to a'.
+Proof. exact idempotent. Qed.
+Print Assumptions C17_idempotent.
+
+(* hence every single-token search — listed IDs, total, histogram, count aggregation — agrees *)
+Theorem C17_idempotent_search :
+  forall iv gt a a' t, a_ids a = a_ids a' -> (forall t, tok_lids a t = tok_lids a' t) ->
+    search_frac iv gt a t = search_frac iv gt a' t.
+Proof. exact search_frac_ext. Qed.
+Print Assumptions C17_idempotent_search.
+
+(* non-vacuity: bulk 1 = [A with a nested meta; B], bulk 2 = [C; A again (other bytes); B again],
+   bulk 3 = bulk 1 again. Hypotheses hold, repeats are dropped, first bytes are served. *)
+Definition ex_A := mkMeta (1005, 1)%N 30%N [1; 5; 0]%N.
+Definition ex_An := mkMeta (1005, 1)%N 0%N [2; 0]%N.
+Definition ex_B := mkMeta (1010, 2)%N 25%N [2; 0]%N.
+Definition ex_C := mkMeta (1001, 3)%N 40%N [1; 6; 0]%N.
+Definition ex_h : list (list (meta * N)) :=
+  [[(ex_A, 0); (ex_An, 0); (ex_B, 0)]; [(ex_C, 0); (ex_A, 1); (ex_An, 1); (ex_B, 1)];
+   [(ex_A, 0); (ex_An, 0); (ex_B, 0)]]%N.
+
+Example C17_history_hypotheses_hold :
+  Forall (fun b => bulk_ok (map fst b)) ex_h /\ Forall (fun b => bulk_ok (map fst b)) (dedupb ex_h).
+Proof.
+  split; repeat constructor; intros blk v1 v2; simpl;
+    intuition (subst; simpl in *; congruence).
+Qed.
+
+Example C17_history_nonvacuous :
+  a_ids (run_active ex_h) = [sys_id; (1005, 1); (1005, 1); (1010, 2); (1001, 3)]%N
+  /\ tok_lids (run_active ex_h) 2 = [2; 3] /\ tok_lids (run_active ex_h) 1 = [1; 4]
+  /\ a_total (run_active ex_h) = 4%N
+  /\ fetch (run_active ex_h) (1005, 1)%N = Some 0%N
+  /\ map (map fst) (dedupb ex_h) = [[ex_A; ex_An; ex_B]; [ex_C]; []].
+Proof. vm_compute. repeat split. Qed.
+
+(* the behaviour the filter exists for, kept as a refuted variant: without Filter (collector used
+   as is although SetMultiple rejected documents) the repeats get LIDs and are counted twice *)
+Definition process_bulk_v0 (a : active) (b : list (meta * N)) : active :=
+  let blk := length (a_blocks a) in
+  let c := collect blk (map fst b) in
+  let r := set_multiple (a_posm a) (c_ids c) (c_pos c) in
+  mkActive (fst r) (a_ids a ++ c_ids c)
+           (add_groups (a_tok a) (c_tvals c) (group_lids c (seq (length (a_ids a)) (length (c_ids c)))))
+           (a_blocks a ++ [layout_from 0 b]) (a_total a + c_docs c)
+           (N.min (a_from a) (c_min c)) (N.max (a_to a) (c_max c)).
+Example C17_no_filter_v0_refuted :
+  exists h, Forall (fun b => bulk_ok (map fst b)) h /\
+            a_total (fold_left process_bulk_v0 h active_empty) <> N.of_nat (length (first_deliveries (map (map fst) h))).
+Proof.
+  exists [[(ex_B, 0%N)]; [(ex_B, 0%N)]]. split.
+  - repeat constructor; intros blk v1 v2; simpl; intuition (subst; simpl in *; congruence).
+  - vm_compute. discriminate.
+Qed.
